@@ -625,8 +625,10 @@ def eval_int(e, leaf, bits=64):
             if name == "with_addr" and len(args) == 2:
                 return eval_int(args[1], leaf, bits)
             return eval_int(args[0], leaf, bits)
-        if name == "map_addr":
-            return None
+        if name == "map_addr" and len(args) == 2:
+            # `p.map_addr(|a| a | 1)`: the closure applied to the address
+            r = inline_closure_call(_INLINE_F[0], ("call", CALL_TRAIT_FNS[0], "call_once", (args[1], ("agg", "tuple", None, None, (args[0],), (), None)), (), None, (), ())) if _INLINE_F[0] is not None else None
+            return eval_int(r, leaf, bits) if r is not None else None
         r = inline_call(_INLINE_F[0], e)
         if r is not None:
             return eval_int(r, leaf, bits)
